@@ -357,9 +357,12 @@ def _run_kani(h, slot, logdir, playback, suffix="", scale=1):
         if not real and r["unwind_failed"]:
             r["status"] = "inconclusive"
             r["reason"] = "unwinding assertion failed: loop bound of the harness too small"
+        elif not real and "unwinding failures" in text:
+            r["status"] = "inconclusive"
+            r["reason"] = "unwinding assertion failed: loop bound of the harness too small"
         elif not real:
             r["status"] = "inconclusive"
-            r["reason"] = "FAILED without a failed check (cover-only failure or CBMC error)"
+            r["reason"] = "FAILED without a failed check (cover-only failure, CBMC out of memory or CBMC error)"
         else:
             r["status"] = "failed"
     return r
@@ -604,6 +607,7 @@ def write_evidence(prop, tier, seed, meta, results, wall, nviol, pre_info, incon
         "symex_time_s": round(sum((r["symex_s"] or 0) for r in results), 1),
         "inconclusive": inconclusive or [],
         "counterexamples_replayed_natively": replays_ok,
+        "traces_validated_against_impl": replays_ok + sum(1 for r in results for w in (r.get("witnesses") or {}).values() if w.get("native_cover_hit")),
         "known_findings_matched": [k["what"] for _, kh in (known_hits or []) for k in kh],
         "regenerated_from": pre_info or {},
     }
